@@ -53,7 +53,50 @@ def translate(path):
         if isinstance(n, ast.Call) and ast.unparse(n.func) == "setattr" and n.args and ast.unparse(n.args[0]) in ("cls", "type(self)", "self.__class__"):
             attrs.add("setattr:" + ast.unparse(n.args[1]) if len(n.args) > 1 else "setattr")
     res["class_attrs"] = sorted(attrs)
+    methods = {f.name: f for f in cls[0].body if isinstance(f, ast.FunctionDef)}
+    # the loops of add() in source order, and the collection(s) iterated by the loop(s) that compare the hint
+    loops, hint_loops = [], []
+    if "add" in methods:
+        fors = sorted((n for n in ast.walk(methods["add"]) if isinstance(n, (ast.For, ast.AsyncFor))), key=lambda n: (n.lineno, n.col_offset))
+        for n in fors:
+            loops.append("for %s in %s" % (src(n.target), src(n.iter)))
+            inner = [m for b in n.body for m in ast.walk(b)]
+            if any(isinstance(m, ast.Compare) and any(isinstance(x, ast.Name) and x.id == "hint" for x in ast.walk(m)) for m in inner):
+                hint_loops.append(src(n.iter))
+        # comprehensions / while loops / calls like next(...) that look the hint up some other way
+        for n in ast.walk(methods["add"]):
+            if isinstance(n, (ast.ListComp, ast.GeneratorExp, ast.SetComp, ast.DictComp)) and any(
+                    isinstance(x, ast.Name) and x.id == "hint" for x in ast.walk(n)):
+                hint_loops.append("comprehension: " + src(n))
+            if isinstance(n, ast.While):
+                loops.append("while " + src(n.test))
+    res["add_loops"] = loops
+    res["hint_loops"] = hint_loops
+    # validate(): default of `recursive`, and the recursive argument at the build-time call sites in add / component_factory
+    dflt = [d for n, d in res["signatures"].get("validate", []) if n == "recursive"]
+    res["validate_default_recursive"] = dflt[0] if len(dflt) == 1 and dflt[0] is not None else "missing"
+    sites = []
+    for mname in ("add", "component_factory"):
+        if mname not in methods:
+            continue
+        calls = sorted((n for n in ast.walk(methods[mname]) if isinstance(n, ast.Call) and isinstance(n.func, ast.Attribute)
+                        and n.func.attr == "validate"), key=lambda n: (n.lineno, n.col_offset))
+        for n in calls:
+            arg = ""
+            extra = [k for k in n.keywords if k.arg != "recursive"]
+            if len(n.args) > 1 or extra or (n.args and any(k.arg == "recursive" for k in n.keywords)):
+                arg = "other: " + src(n)
+            elif n.args:
+                arg = src(n.args[0])
+            elif n.keywords:
+                arg = src(n.keywords[0].value)
+            sites.append(["%s: %s" % (mname, src(n.func)), arg])
+    res["validate_sites"] = sites
     return res
+
+
+def src(n):
+    return " ".join(ast.unparse(n).split())[:160].encode("ascii", "backslashreplace").decode()
 
 
 if __name__ == "__main__":
